@@ -52,6 +52,10 @@ def queries(tier):
             qs.append(Query("inproc-h%d-%s" % (hl, w.replace(" ", "").replace("(", "").replace(")", "")), "c01/inproc.c", tus=["core/list.c"], env=IENV,
                             defs={"HL": hl, "SKEL": w}, cdefs=["-DENV_MSG_CAP=8"], unwind=12, unwind_rules=KIT_RULES + [(r"^(post_send|check_delivery|note_)", r".", 72)], timeout=300, group="c01/inproc.c",
                             params={"transport": "inproc", "header": hl, "skeleton": w}))
+    # the SP websocket transport's pipe operations
+    for case, cn in ((1, "send-ok"), (2, "send-fails"), (3, "send-cancelled"), (4, "recv-ok"), (5, "recv-fails"), (6, "recv-cancelled")):
+        qs.append(Query("wstran-%s" % cn, "c01/wstran.c", tus=TUS, env=ENV, defs={"CASE": case}, cdefs=["-DENV_MSG_CAP=8"], unwind=12, unwind_rules=KIT_RULES, timeout=300,
+                        group="c01/wstran.c", params={"unit": "sp/transport/ws/websocket.c", "case": cn}))
     # platform stream code: partial readv / sendmsg / writev completion reporting
     PENV = ["env_alloc.c", "env_misc.c", "env_sync.c", "env_aio.c", "env_libc.c"]
     for which, wn in enumerate(("tcp", "ipc", "sockfd")):
